@@ -296,6 +296,7 @@ class Eraser:
         self.spread = {}       # temp name -> True if it holds a materialised spread
         self.hooks = []        # dicts(name, R, A, R_erased)
         self.problems = []     # (role, detail)
+        self.spread_uses = {}  # temp name -> number of `...temp` sites (each site iterates the value once more)
         self.lets = []         # injected let name lists (per block)
         self.raw = {}          # temp name -> current (un-erased) defining expression
         self.inj = []          # (span view, what, hook index or None): spans carried by injected nodes
@@ -470,7 +471,22 @@ class Eraser:
         return self.erase(R)
 
     def run(self, out_view):
+        self.count_spread_sites(out_view)
         return self.erase(out_view)
+
+    def count_spread_sites(self, v):
+        if isinstance(v, (list, tuple)):
+            for x in v:
+                self.count_spread_sites(x)
+            return
+        if not isinstance(v, dict) or is_lazy(v):
+            return
+        if v.get('_t') == 'ExprOrSpread' and v['spread'] is not None and is_temp_ident(v['expr']):
+            n = temp_name(v['expr'])
+            self.spread_uses[n] = self.spread_uses.get(n, 0) + 1
+        for k, x in v.items():
+            if isinstance(x, (dict, list, tuple)):
+                self.count_spread_sites(x)
 
 
 def same_node(a, b):
@@ -559,6 +575,13 @@ def operand_kind(e):
 def check_C03(er, cfg_terms=None):
     """every hook: first argument = the operation applied to exactly the remaining arguments, in order"""
     out = []
+    for name, n in er.spread_uses.items():
+        # `...t` at n sites iterates the value of t n times: only a fresh array ([...x] materialised by the rewriter, or an
+        # array literal) yields the same elements every time; anything else (a generator, a one-shot iterator) is expanded from
+        # several evaluations of its iterator
+        raw = er.raw.get(name)
+        if n >= 2 and not er.spread.get(name) and not (raw is not None and not is_lazy(raw) and kind(raw) == 'Array'):
+            out.append(Violation('C03', 'method-call/spread-operand-iterated-more-than-once', True, 'temporary %s is spread at %d sites but holds %s' % (name, n, kind(raw) if raw is not None and not is_lazy(raw) else '?')))
     for h in er.hooks:
         R, A = h['R'], h['A']
         if is_lazy(A):
